@@ -121,6 +121,30 @@ theorem retarget_one_clean (w : W) (lost : List Nat) (view : AppJobs) (c : Comma
       rw [ht] at hk; cases hk
       rw [hl i hm] at hrun; cases hrun
 
+/-- `on_command_added` never raises: the instance it gives a command is taken among the selected ones that know the program
+    (`get_applicable_identifiers`, repair a6190c1), so `update_identifier` finds its information.  This is what makes the fallback
+    branch of `retargetCmds` (model only) unreachable. -/
+theorem onCommandAdded_never_raises (w : W) (j : AppJobs) (c : Command) : ∃ c', onCommandAdded w j c = .ok c' := by
+  unfold onCommandAdded
+  split
+  · exact ⟨_, rfl⟩
+  · split
+    · exact ⟨_, rfl⟩
+    · split
+      · rename_i i hi
+        obtain ⟨_, hmem, _, _⟩ := Supv.Props.C14.C14_choice_valid w _ _ _ _ i hi
+        have hen : enabledOn w c.proc i = true := by
+          have := (List.mem_filter.mp hmem).2
+          simpa using this
+        unfold enabledOn at hen
+        cases hg : getInfo (w.procs.getD c.proc {}).infos i with
+        | none => rw [hg] at hen; cases hen
+        | some v =>
+          refine ⟨{ c with target := some i, waitTicks := waitTicksOf (w.pcfg.getD c.proc default).startsecs }, ?_⟩
+          unfold updateIdentifier
+          rw [hg]
+      · exact ⟨_, rfl⟩
+
 theorem retargetCmds_clean (w : W) (lost : List Nat) (j0 : AppJobs) (preG postG : List (Nat × List Command)) (seq : Nat)
     (hl : ∀ i ∈ lost, w.instRunning.getD i false = false) :
     ∀ (todo preC : List Command), (∀ c ∈ preC, CleanCmd lost c) →
